@@ -21,7 +21,7 @@ INVARIANT ContestsAreUnionLaterWins
 INVARIANT FlagsMeaningful
 INVARIANT FoldAgrees
 """ + ("INVARIANT Emit\n" if emit else "")
-    return core.run_tlc("MergeMC", cfg, workers=16, timeout=3400, heap="8g")
+    return core.run_tlc("MergeMC", cfg, workers=16, timeout=3400, heap="8g", coverage=True)
 
 
 def flag(v):
